@@ -48,6 +48,9 @@ type C14Op struct {
 	// is not sent before the refresh stands there
 	RendezvousBumped bool `json:"rendezvous_bumped,omitempty"`
 	WaitBumped       bool `json:"wait_bumped,omitempty"`
+	// config: the client's answer to this refresh travels until one more refresh (a later one) is done,
+	// so the server gets the answers in the opposite order of its questions
+	AnswerLate bool `json:"answer_late,omitempty"`
 	AtEnd            bool `json:"at_end,omitempty"` // request: on the last line of the document's current text (the blank line after its last header)
 }
 
@@ -77,6 +80,7 @@ type c14Hooks struct {
 	meet     chan struct{}   // non-nil: a refresh waits at config.answer for a request to reach templates.computed
 	meet2    chan struct{}   // non-nil: a refresh waits at config.bumped for a request to reach templates.computed
 	atBumped bool            // a refresh stands at config.bumped
+	lateFor  int             // >0: the next answer travels until cfgDone reaches this count
 }
 
 // goid returns the id of the calling goroutine (from the header of its stack trace).
@@ -176,6 +180,20 @@ func (h *c14Hooks) handler(name string, args ...string) {
 		h.inflight--
 		delete(h.armed, goid())
 	case "config.answer":
+		if target := h.lateFor; h.enabled && target > 0 {
+			h.lateFor = 0
+			h.mu.Unlock()
+			for deadline := time.Now().Add(2 * time.Second); time.Now().Before(deadline); {
+				h.mu.Lock()
+				done := h.cfgDone >= target
+				h.mu.Unlock()
+				if done {
+					break
+				}
+				time.Sleep(20 * time.Microsecond)
+			}
+			return
+		}
 		if ch := h.meet; h.enabled && ch != nil {
 			h.mu.Unlock()
 			select {
@@ -234,7 +252,7 @@ func (h *c14Hooks) handler(name string, args ...string) {
 func (h *c14Hooks) reset(delays []int, enabled bool) {
 	h.mu.Lock()
 	h.delays, h.next, h.cfgStart, h.cfgDone, h.inflight, h.enabled = delays, 0, 0, 0, 0, enabled
-	h.holdWant, h.holdAt, h.armed, h.held, h.meet, h.meet2, h.atBumped = map[string]int{}, map[string]int{}, map[uint64]int{}, nil, nil, nil, false
+	h.holdWant, h.holdAt, h.armed, h.held, h.meet, h.meet2, h.atBumped, h.lateFor = map[string]int{}, map[string]int{}, map[uint64]int{}, nil, nil, nil, false, 0
 	h.mu.Unlock()
 }
 
@@ -436,6 +454,14 @@ func c14Execute(c *C14Case, sequential bool) (*c14Run, []ev.Discrepancy) {
 					if op.Rendezvous && !sequential {
 						c14h.mu.Lock()
 						c14h.meet = make(chan struct{})
+						c14h.mu.Unlock()
+					}
+					if op.AnswerLate && !sequential {
+						c14h.mu.Lock()
+						c14h.lateFor = c14h.cfgDone + 1 // held until one more refresh (the next one) is done
+						if c14h.cfgDone != c14h.cfgStart {
+							c14h.lateFor = 0 // an earlier refresh is still under way: no telling whose answer would be held
+						}
 						c14h.mu.Unlock()
 					}
 					if op.RendezvousBumped && !sequential {
@@ -849,6 +875,27 @@ func genC14(t *rapid.T, p *gen.Profile) *C14Case {
 				C14Op{Op: "request", Doc: ed.from, Kind: "inlineCompletion", AtEnd: true, Wait: 2, WaitBumped: inside},
 				C14Op{Op: "request", Doc: ed.from, Kind: "inlineCompletion", AtEnd: true, Wait: 2})
 		}
+	}
+	if rapid.IntRange(0, 3).Draw(t, "latepattern") == 0 {
+		// a value is set and set back (or set to a third value) in quick succession, and the answer to the
+		// older question reaches the server after the answer to the newer one
+		c.Pats = append(c.Pats, "pattern:configuration-answers-out-of-order")
+		d := rapid.IntRange(0, n-1).Draw(t, "lapdoc")
+		mk := func(v int) map[string]any {
+			return map[string]any{"formatting": map[string]any{"indentSize": float64(v)}, "completion": map[string]any{"maxResults": float64(v)}}
+		}
+		v0, v1 := rapid.IntRange(1, 8).Draw(t, "lapv0"), rapid.IntRange(1, 8).Draw(t, "lapv1")
+		v2 := rapid.SampledFrom([]int{v0, v0, rapid.IntRange(1, 8).Draw(t, "lapv2")}).Draw(t, "lapback")
+		if v2 == v0 {
+			c.Pats = append(c.Pats, "pattern:value-set-and-set-back")
+		}
+		c.Ops = append(c.Ops,
+			C14Op{Op: "open", Doc: d, Wait: 2},
+			C14Op{Op: "config", Doc: d, Config: mk(v0), Wait: 2},
+			C14Op{Op: "config", Doc: d, Config: mk(v1), AnswerLate: true},
+			C14Op{Op: "config", Doc: d, Config: mk(v2), Wait: 2},
+			C14Op{Op: "request", Doc: d, Kind: "formatting", Wait: 2},
+			C14Op{Op: "request", Doc: d, Kind: "completion", Pos: refclient.Pos{Line: rapid.IntRange(0, 12).Draw(t, "lapline"), Char: rapid.IntRange(0, 30).Draw(t, "lapchar")}, Wait: 2})
 	}
 	nd := rapid.IntRange(0, 12).Draw(t, "ndelays")
 	for i := 0; i < nd; i++ {
